@@ -1,12 +1,12 @@
 (* JsonText.v -- the text json.dumps(value, separators=(",", ":")) writes (ensure_ascii default):
    what to_json puts on the wire, character by character. *)
-From Coq Require Import List ZArith NArith Bool String Ascii DecimalString.
-From OV.Model Require Import Json.
+From Coq Require Import List ZArith NArith Bool String Ascii.
+From OV.Model Require Import Json Digits.
 Import ListNotations.
 Local Open Scope string_scope.
 
 (* ---------- integers ---------- *)
-Definition nat_digits (n : N) : string := NilEmpty.string_of_uint (N.to_uint n).
+Definition nat_digits (n : N) : string := dstr (digits n).
 Definition int_text (z : Z) : string :=
   match z with
   | Z0 => "0"
@@ -15,23 +15,21 @@ Definition int_text (z : Z) : string :=
   end.
 
 (* ---------- floats: Python's repr from the shortest digits m * 10^e ---------- *)
-Fixpoint zeros (n : nat) : string := match n with O => "" | S k => "0" ++ zeros k end.
-
 Definition float_text (m e : Z) : string :=
   let sign := if Z.ltb m 0 then "-" else "" in
-  let ds := nat_digits (Z.to_N (Z.abs m)) in
-  let n := Z.of_nat (String.length ds) in
+  let ds := digits (Z.to_N (Z.abs m)) in
+  let n := Z.of_nat (List.length ds) in
   let decpt := (n + e)%Z in                       (* position of the decimal point *)
   if Z.eqb m 0 then "0.0"
   else if (Z.ltb (-4) decpt && Z.leb decpt 16)%bool then
-    (if Z.leb decpt 0 then sign ++ "0." ++ zeros (Z.to_nat (- decpt)) ++ ds
-     else if Z.leb n decpt then sign ++ ds ++ zeros (Z.to_nat (decpt - n)) ++ ".0"
-     else sign ++ substring 0 (Z.to_nat decpt) ds ++ "." ++ substring (Z.to_nat decpt) (String.length ds - Z.to_nat decpt) ds)
+    (if Z.leb decpt 0 then sign ++ "0." ++ dstr (repeat 0%N (Z.to_nat (- decpt)) ++ ds)
+     else if Z.leb n decpt then sign ++ dstr (ds ++ repeat 0%N (Z.to_nat (decpt - n))) ++ ".0"
+     else sign ++ dstr (firstn (Z.to_nat decpt) ds) ++ "." ++ dstr (skipn (Z.to_nat decpt) ds))
   else
     let ex := (decpt - 1)%Z in
-    let mant := substring 0 1 ds ++ (if Nat.ltb 1 (String.length ds) then "." ++ substring 1 (String.length ds - 1) ds else "") in
-    let exds := nat_digits (Z.to_N (Z.abs ex)) in
-    sign ++ mant ++ "e" ++ (if Z.ltb ex 0 then "-" else "+") ++ (if Nat.ltb (String.length exds) 2 then "0" ++ exds else exds).
+    let mant := dstr (firstn 1 ds) ++ (match skipn 1 ds with [] => "" | tl => "." ++ dstr tl end) in
+    let exds := digits (Z.to_N (Z.abs ex)) in
+    sign ++ mant ++ "e" ++ (if Z.ltb ex 0 then "-" else "+") ++ dstr (match exds with [d] => [0%N; d] | _ => exds end).
 
 Definition num_text (n : num) : string :=
   match n with
